@@ -755,11 +755,57 @@ def _heap_ownership(ctx, rule):
     return c01.r2_heap_ownership(ctx, rule)
 
 
+def r20_position_verbatim(ctx, rule):
+    """The position a queue is restored to is the saved one, bit for bit: every store to self.max_probability in PcfgQueue is the
+    fresh-session constant, the option read back from the save file, or the probability of the item just popped - never a
+    function of the restored value (seed C15-o: math.nextafter(self.max_probability, 0.0) after an OMEN quit; the pre-terminal
+    popped at the quit sits exactly AT the saved probability and the restore needs `<=` to put it back)."""
+    mod = ctx.repo.modules[PQF]
+    n_ok = 0
+    ok = True
+    for lname, fn in mod.funcs.items():
+        if not lname.startswith('PcfgQueue.'):
+            continue
+        q = PQF + '::' + lname
+        ctx.stats['functions'].add(q)
+        for n in walk_local(fn):
+            tgts = n.targets if isinstance(n, ast.Assign) else [n.target] if isinstance(n, (ast.AugAssign, ast.AnnAssign)) else []
+            for t in tgts:
+                for leaf in (t.elts if isinstance(t, (ast.Tuple, ast.List)) else [t]):
+                    if U(leaf) != 'self.max_probability':
+                        continue
+                    v = getattr(n, 'value', None)
+                    if v is None:
+                        continue
+                    if isinstance(n, ast.Assign) and not isinstance(t, (ast.Tuple, ast.List)):
+                        if isinstance(const(v), (int, float)):
+                            n_ok += 1
+                            continue
+                        if isinstance(v, ast.Call) and isinstance(v.func, ast.Attribute) and v.func.attr in ('getfloat',) \
+                                and len(v.args) >= 2 and const(v.args[1]) == 'max_probability' and len(v.args) + len(v.keywords) == 2:
+                            n_ok += 1
+                            continue
+                        if isinstance(v, ast.Subscript) and const(v.slice) == 'prob':
+                            n_ok += 1       # which item: C08.R4
+                            continue
+                    ok = False
+                    reads = {U(x) for x in ast.walk(v) if isinstance(x, (ast.Attribute, ast.Name))}
+                    if isinstance(n, ast.AugAssign) or 'self.max_probability' in reads or any('getfloat' in r for r in reads):
+                        ctx.bad(rule, q, 'self.max_probability %s %s' % ('(aug)=' if isinstance(n, ast.AugAssign) else '=', U(v)[:80]),
+                                'the restored position is a function of the saved one, not the saved one: items that sit exactly at '
+                                'the saved probability (the pre-terminal popped when the session quit) fall on the wrong side of the restore test',
+                                None, n, firm=True)
+                    else:
+                        ctx.unk(rule, q, 'store to self.max_probability of a kind this rule does not know: ' + U(n)[:90])
+    if ctx.floor(rule, PQF, n_ok, 3, 'recognised stores to self.max_probability') and ok:
+        ctx.ok(rule, PQF + '::PcfgQueue', 'self.max_probability is stored %d times: a constant, the saved option read with getfloat, the popped probability' % n_ok)
+
+
 def rules(tier):
     return [('C08.R1', r1_uuid_gate), ('C08.R2', r2_region_agreement), ('C08.R3', r3_canonical_descent),
             ('C08.R4', r4_saved_position), ('C08.R5', r5_sav_keys), ('C08.R6', c01.r5_successor),
             ('C08.R7', c01.r4_prob_pt_coupling), ('C08.R8', c01.r1_heap_order), ('C08.R9', r9_restore_depth), ('C08.R11', r11_restore_is_verbatim),
-            ('C08.R10', _exact_float), ('C08.R12', r12_uuid_is_fresh), ('C08.R13', r13_grammar_order), ('C08.R14', _one_shot), ('C08.R15', _omn_names), ('C08.R16', _omen_save_restore), ('C08.R17', r17_session_state_per_object), ('C08.R18', _quit_points), ('C08.R19', _heap_ownership)]
+            ('C08.R10', _exact_float), ('C08.R12', r12_uuid_is_fresh), ('C08.R13', r13_grammar_order), ('C08.R14', _one_shot), ('C08.R15', _omn_names), ('C08.R16', _omen_save_restore), ('C08.R17', r17_session_state_per_object), ('C08.R18', _quit_points), ('C08.R19', _heap_ownership), ('C08.R20', r20_position_verbatim)]
 
 
 META = {
